@@ -20,6 +20,7 @@ def registry():
     import rules_more
     import rules_history
     import rules_compare
+    import rules_c04
     reg.update(rules_more.REGISTRY)
     return reg
 
